@@ -89,7 +89,8 @@ def apply_post(x, p):
         if hi <= lo:
             return x
         k = p['levels']
-        return np.round((x - lo) / (hi - lo) * (k - 1)) - (k // 2)
+        y = np.round((x - lo) / (hi - lo) * (k - 1)) - (k // 2)
+        return y.astype(np.int64) if p.get('as_int') else y
     if t == 'clip':
         q = p['q']
         hi = np.quantile(x, 1 - q)
@@ -133,6 +134,8 @@ def render_signal(recipe):
             x = x + render_component(c, n, fs)
     for p in recipe.get('post', []):
         x = apply_post(x, p)
+    if x.dtype.kind == 'i':
+        return np.ascontiguousarray(x)           # small integer-valued signal kept as int64 (exact arithmetic, no overflow)
     return np.ascontiguousarray(x, dtype=np.float64)
 
 
@@ -142,6 +145,8 @@ def signal_classes(recipe):
     if recipe['kind'] == 'recipe':
         out += ['comp:' + c['type'] for c in recipe['comps']]
     out += ['post:' + p['type'] for p in recipe.get('post', [])]
+    if any(p.get('as_int') for p in recipe.get('post', [])):
+        out.append('int64-stage')
     return out
 
 
@@ -225,8 +230,10 @@ def st_component(draw, band, n):
 @st.composite
 def st_post(draw):
     t = draw(st.sampled_from(['quantise', 'intquant', 'clip', 'zero', 'hold', 'dc', 'scale', 'negate']))
-    if t in ('quantise', 'intquant'):
+    if t == 'quantise':
         return {'type': t, 'levels': draw(st.integers(2, 32))}
+    if t == 'intquant':
+        return {'type': t, 'levels': draw(st.integers(2, 32)), 'as_int': draw(st.booleans())}
     if t == 'clip':
         return {'type': t, 'q': draw(st.sampled_from([0.02, 0.1, 0.25, 0.4]))}
     if t == 'zero':
@@ -322,6 +329,11 @@ def st_analysis_case(draw, methods=('cycles', 'amp'), centers=('peak', 'trough')
         amp_fk = (bk or {}).get('filter_kwargs')
     elif thresholds:
         th = draw(st_thresholds_cycles())
+        if draw(st.integers(0, 3)) == 0:
+            # documented as used only when burst_method='amp': must not influence a 'cycles' analysis
+            bk = {'min_n_cycles': draw(st.integers(0, 6))}
+            if draw(st.booleans()):
+                bk['amp_threshes'] = [1, 2]
     p_lo = fs / f_lo
     need = max(filt_len_of(band, fk), filt_len_of(band, None), filt_len_of(band, amp_fk)) + 8
     n_min = int(max(need, min_periods * p_lo))
